@@ -76,6 +76,21 @@ var handPairs = []handPair{
 		new: map[string]string{"a.frugal": "scope Orders prefix orders.{orderId} {\n  Sent: string\n}\nscope Feed prefix data.{id}.feed {\n  Sent: string\n}\n"},
 	},
 	{
+		name: "struct turned into a union of the same name", sig: "C18:missed-breaking:change-kind", wantFail: true, root: "a.thrift",
+		old: map[string]string{"a.thrift": "struct Shape {\n  1: i32 side,\n  2: optional string label,\n}\nstruct User {\n  1: Shape s,\n}\n"},
+		new: map[string]string{"a.thrift": "union Shape {\n  1: i32 side,\n  2: string label,\n}\nstruct User {\n  1: Shape s,\n}\n"},
+	},
+	{
+		name: "struct turned into an exception of the same name", sig: "C18:missed-breaking:change-kind", wantFail: true, root: "a.thrift",
+		old: map[string]string{"a.thrift": "struct Problem {\n  1: i32 code,\n}\n"},
+		new: map[string]string{"a.thrift": "exception Problem {\n  1: i32 code,\n}\n"},
+	},
+	{
+		name: "element types of container constants changed (values still fit)", sig: "C18:false-alarm:change-const-type:nested", wantFail: false, root: "a.thrift",
+		old: map[string]string{"a.thrift": "const list<i32> PRIMES = [2, 3, 5]\nconst map<string, i32> AGES = {\"a\": 1}\nconst map<string, list<i32>> TABLE = {\"a\": [1, 2]}\n"},
+		new: map[string]string{"a.thrift": "const list<i64> PRIMES = [2, 3, 5]\nconst map<string, i64> AGES = {\"a\": 1}\nconst map<string, list<i16>> TABLE = {\"a\": [1, 2]}\n"},
+	},
+	{
 		name: "last default field removed", sig: "C18:missed-breaking:remove-field", wantFail: true, root: "a.thrift",
 		old: map[string]string{"a.thrift": "struct S {\n  1: i32 a,\n  2: optional i32 b,\n  3: string c,\n}\n"},
 		new: map[string]string{"a.thrift": "struct S {\n  1: i32 a,\n  2: optional i32 b,\n}\n"},
